@@ -49,6 +49,37 @@ def n_float(a):
     return sum(float(v) * math.pi ** k for k, v in a.items())
 
 
+def rounded_pi(T):
+    """The value of pi rounded to nearest in a binary format with T's significand (exact rational)."""
+    from fractions import Fraction as Fr
+    # pi to 60 decimal places is ample for 64-bit significands
+    PI = Fr("3.141592653589793238462643383279502884197169399375105820974944")
+    p = MANT[T]
+    e = 1   # 2 <= pi < 4  => exponent 1
+    scale = Fr(2) ** (p - 1 - e)
+    return Fr(round(PI * scale)) / scale
+
+
+def round_to(q, T):
+    """q rounded to nearest (ties away; irrelevant here) in a binary format with T's significand."""
+    from fractions import Fraction as Fr
+    q = Fr(q)
+    if q == 0:
+        return q
+    p = MANT[T]
+    a = abs(q)
+    e = 0
+    while a >= 2:
+        a /= 2
+        e += 1
+    while a < 1:
+        a *= 2
+        e -= 1
+    scale = Fr(2) ** (p - 1 - e)
+    r = Fr(round(abs(q) * scale)) / scale
+    return r if q > 0 else -r
+
+
 def representable(q, T):
     """Is the rational q exactly a binary floating-point number with T's significand width?"""
     q = Fraction(q)
@@ -87,9 +118,17 @@ def affine_of(term, leaf, T):
     if k == "c":
         return Affine({}, num(term[1]), 0 if representable(term[1], T) else 1)
     if k == "pi":
+        pt = term[1] if len(term) > 1 else T
+        if pt in MANT and MANT[pt] < MANT[T]:
+            # pi rounded to a *narrower* type used in a wider computation: a different constant, not pi to T's precision
+            return Affine({}, num(rounded_pi(pt)), 1)
         return Affine({}, num(1, 1), 1)
     if k == "cast":
         inner = affine_of(term[2], leaf, T)
+        X = term[1]
+        if inner.is_const() and X in MANT and MANT[X] < MANT[T] and set(inner.B.keys()) == {0} and not representable(inner.B[0], X):
+            # a constant that passed through a narrower type keeps only that type's precision
+            return Affine({}, num(round_to(inner.B[0], X)), inner.roundings, inner.addsub)
         return inner
     if k == "neg":
         x = affine_of(term[1], leaf, T)
